@@ -35,3 +35,14 @@ Theorem C07_lock_free_after_kill : forall (D R : Type) (c : config D R) i w f,
   exists c', cstep c i = Some c' /\ c_pc (cl c' i) = InTxn w f /\ lock c' = Some (i, db c).
 Proof. exact free_lock_is_granted. Qed.
 Print Assumptions C07_lock_free_after_kill.
+
+From DC Require Import Val DiskBase SqlBase Gen_Disk Disk Gen_Sql Cache Refs SinvFacts Txn TxnFacts.
+
+(* for the real transaction bodies: after ANY schedule of set/add/delete/pop/touch/incr/get/contains calls by any
+   number of clients with kills at arbitrary steps, the committed table satisfies the row-level invariant and
+   every file a committed row refers to is completely written *)
+Theorem C07_cache_crash_closed : forall c progs sched,
+  let cf := exec (init_config init_st (fun i => map (compile c) (progs i))) sched in
+  Winv (db cf) /\ (forall g, In g (refs (db cf)) -> files cf g = FDone).
+Proof. exact cache_committed_files_complete. Qed.
+Print Assumptions C07_cache_crash_closed.
